@@ -588,6 +588,30 @@ fn reopen_check(dir: &str) -> i32 {
       reopen_one::<rarena_allocator::unsync::Arena>(dir, &format!("unsync_{name}"), fl, reserved, &mut bad);
     }
   }
+  // read-only open of a file that is too small to contain the header prefix: refused, bytes untouched
+  {
+    let p = format!("{dir}/reopen_short_ro.arena");
+    for cut in [0u64, 7, 12, 17, 24, 31] {
+      let _ = std::fs::remove_file(&p);
+      {
+        let a = unsafe { Options::new().with_capacity(4096).with_create_new(true).with_read(true).with_write(true).map_mut::<Arena, _>(&p).unwrap() };
+        let _ = a.alloc_bytes(40).map(|mut b| unsafe { b.detach() });
+      }
+      let f = std::fs::OpenOptions::new().write(true).open(&p).unwrap();
+      f.set_len(cut).unwrap();
+      drop(f);
+      let before = std::fs::read(&p).unwrap();
+      for mode in ["map", "map_copy_read_only"] {
+        let o = Options::new().with_read(true);
+        let ok = unsafe { if mode == "map" { o.map::<Arena, _>(&p).is_ok() } else { o.map_copy_read_only::<Arena, _>(&p).is_ok() } };
+        if ok || std::fs::read(&p).unwrap() != before {
+          println!("NATIVE R4 violated: [{mode}] a file cut to {cut} bytes is accepted by the read-only open (or was altered)");
+          bad[4] += 1;
+        }
+      }
+    }
+    let _ = std::fs::remove_file(&p);
+  }
   for k in 1..6 {
     if bad[k] == 0 {
       println!("NATIVE R{k} holds");
